@@ -96,6 +96,8 @@ class ValueGen:
             if vals:
                 bias[sw["field"]] = vals
         tail_missing = False
+        # a <dummy> is written only when nothing else was: make "nothing else" likely when there is one
+        hollow = any(i["tag"] == "dummy" for i in spec.Analysis.flatten_noswitch(body)) and draw(st.integers(0, 9)) < 4
         for name, ins, kind in members:
             if kind == "case_data":
                 continue
@@ -108,6 +110,16 @@ class ValueGen:
                         tail_missing = tail_missing or draw(st.integers(0, 4)) > 0
                         obj[name] = None
                         continue
+                if hollow and ins.get("optional"):
+                    obj[name] = None
+                    tail_missing = True
+                    continue
+                if hollow and self.an.resolve(ins["type"])["kind"] == "string" and \
+                        (ins.get("length") is None or not ins["length"].isdigit() or ins.get("padded")):
+                    lf = spec.body_find(body, ins["length"]) if ins.get("length") and not ins["length"].isdigit() else None
+                    if lf is None or lf.get("offset", 0) <= 0:
+                        obj[name] = ""
+                        continue
                 obj[name] = self.scalar(draw, ins["type"], ins.get("length"), bool(ins.get("padded")),
                                         body, bias.get(name))
             else:
@@ -115,6 +127,11 @@ class ValueGen:
                     if tail_missing or draw(st.integers(0, 3)) == 0:
                         tail_missing = tail_missing or draw(st.integers(0, 4)) > 0
                         obj[name] = None
+                        continue
+                if hollow and (ins.get("length") is None or not ins["length"].isdigit()):
+                    lf = spec.body_find(body, ins["length"]) if ins.get("length") else None
+                    if lf is None or lf.get("offset", 0) <= 0:
+                        obj[name] = []
                         continue
                 obj[name] = self.array(draw, ins, body)
         for sw in switches:
